@@ -20,6 +20,9 @@ pub fn install_panic_hook() {
             String::new()
         };
         let msg: String = msg.chars().take(120).collect();
+        if std::thread::current().name() == Some("main") {
+            eprintln!("harness main thread panicked at {loc}: {msg}");
+        }
         LAST_PANIC.with_borrow_mut(|p| *p = Some(format!("{loc} {}", msg.replace(['\n', '\t'], " "))));
     }));
 }
